@@ -522,6 +522,11 @@ func (f *Frame) callContract(callee *ssa.Function, con *Contract, args []Val, pc
 	}
 	sort.Strings(comps)
 	_, anything := modRefs["*"]
+	if anything {
+		st.ptrCells = nil
+	st.fnCells = nil
+		st.fnCells = nil
+	}
 	var touched []string
 	for _, k := range comps {
 		srt, ok := vc.compSorts[k]
@@ -710,6 +715,7 @@ func (f *Frame) havocCall(callee *ssa.Function, args []Val, pc string, st *State
 	vc := f.vc
 	name := callee.String()
 	vc.havocked[name+" ("+why+")"] = true
+	st.ptrCells = nil
 	if st.wr != nil {
 		st.wr.all = true
 	}
@@ -817,11 +823,15 @@ func (f *Frame) mergeCallResults(res *types.Tuple, conds []string, states []*Sta
 }
 
 func (f *Frame) callDynamic(fv Val, cc *ssa.CallCommon, args []Val, pc string, st *State, ins ssa.Value) (Val, string) {
+	return f.callFnValue(fv, cc.Signature(), args, pc, st, ins)
+}
+
+// callFnValue calls a function value (closed-world dispatch, or directly when the value is known).
+func (f *Frame) callFnValue(fv Val, sig *types.Signature, args []Val, pc string, st *State, ins ssa.Value) (Val, string) {
 	vc := f.vc
 	if fv.Fn != nil && len(fv.Fn.FreeVars) == 0 {
 		return f.callStatic(fv.Fn, nil, args, pc, st, ins)
 	}
-	sig := cc.Signature()
 	if f.isPureCallback(fv) {
 		var as []string
 		for _, a := range args {
@@ -848,6 +858,12 @@ func (f *Frame) callDynamic(fv Val, cc *ssa.CallCommon, args []Val, pc string, s
 		return Val{Tuple: vs, Typ: res}, pc
 	}
 	cands := vc.prog.funcValueCandidates(sig)
+	static := false
+	if fn := vc.fnOfTerm[fv.T]; fn != nil {
+		// the function value is statically known (a closure literal passed down the call chain)
+		cands = []*ssa.Function{fn}
+		static = true
+	}
 	if len(cands) == 0 {
 		unsup("dynamic call in %s: no candidate functions of type %s", shortFn(f.fn), sig)
 	}
@@ -866,7 +882,9 @@ func (f *Frame) callDynamic(fv Val, cc *ssa.CallCommon, args []Val, pc string, s
 		cargs := args
 		target := c
 		var bindings []Val
-		if len(c.FreeVars) > 0 {
+		if kb, ok := vc.closureBinds[fv.T]; ok && static && len(kb) == len(c.FreeVars) {
+			bindings = kb
+		} else if len(c.FreeVars) > 0 {
 			// bound method closure: single free variable = receiver carried in the environment
 			if len(c.FreeVars) == 1 && vc.sortOf(c.FreeVars[0].Type()) == "Int" {
 				bindings = []Val{{T: fmt.Sprintf("(fn_env %s)", fv.T), Typ: c.FreeVars[0].Type()}}
@@ -892,7 +910,9 @@ func (f *Frame) callDynamic(fv Val, cc *ssa.CallCommon, args []Val, pc string, s
 		states = append(states, bst)
 		results = append(results, r)
 	}
-	f.safe(pc, "dispatch", posOf(ins, f), or(idConds...), "function value is one of the functions ever stored in a value of this type (closed world)")
+	if !static {
+		f.safe(pc, "dispatch", posOf(ins, f), or(idConds...), "function value is one of the functions ever stored in a value of this type (closed world)")
+	}
 	return f.mergeCallResults(sig.Results(), conds, states, results, st)
 }
 
